@@ -259,12 +259,15 @@ func checkParseCase(prop string, c *parseCase, col0 *collector, held *[]heldErr)
 			col.count("skipped: panic (C01)", 1)
 			return
 		}
-		if r.err == nil {
-			col.count("skipped: defective input accepted (C01)", 1)
-			return
-		}
 		got := versions[c.Ver].ErrKind(r.err)
 		want := ErrK{c.Exp.Kind, string(bytesOf(c.Exp.Abv))}
+		if r.err == nil {
+			// the property says this defect "yields" the documented error: no error at all is not it
+			col.count("catalogued single defects compared", 1)
+			col.violate(Violation{Property: prop, Kind: "catalogued defect reported with no error", Version: c.Ver, Input: inputRec(b),
+				Expected: want, Observed: got, Extra: map[string]interface{}{"defect": c.Tag.F, "position": c.Tag.K}})
+			return
+		}
 		col.count("catalogued single defects compared", 1)
 		*held = append(*held, heldErr{r.err, got, c.Ver, b})
 		if got != want {
